@@ -28,16 +28,14 @@
  */
 #include "verif.h"
 #include "lib/tar/src/read_header.c"
+#ifndef MAXREC
+#define MAXREC 2
+#endif
+#define ENV_MAX_READS MAXREC
 #define REAL_free_sparse_list
 #define ENV_MEMCPY_STUB
 #include "tar_env.h"
 #include "lib/tar/src/cleanup.c"
-
-#ifndef MAXREC
-#define MAXREC 2
-#endif
-
-static unsigned int g_hdr_reads;
 
 void sqfs_xattr_list_free(sqfs_xattr_t *list)
 {
@@ -49,14 +47,19 @@ void sqfs_xattr_list_free(sqfs_xattr_t *list)
 	}
 }
 
-static char *env_string(size_t size)
+/* a fresh NUL-terminated heap string: 7 arbitrary bytes (so any shorter
+ * string too). Callers in this harness treat such buffers as opaque; the
+ * fixed size keeps the object typed and small - a smaller object than the
+ * real one can only cause spurious bounds failures, never hide one
+ * (symbolic sizes up to 64 KiB exhaust the solver: 13-18 GB). */
+static char *env_string(void)
 {
-	char *p = malloc(size + 1);
+	char *p = malloc(8);
 
 	if (p == NULL)
 		return NULL;
-	env_fill(p, size);
-	p[size] = '\0';
+	verif_nd_bytes(p, 7, "string");
+	p[7] = '\0';
 	return p;
 }
 
@@ -75,10 +78,9 @@ char *record_to_memory(sqfs_istream_t *fp, size_t size)
 	} else {
 		VERIF_ASSERT(0, "C07.limits.unexpected_record");
 	}
-	VERIF_ASSUME(size <= 65536);
 	if (verif_nd_bool("rtm.fail"))
 		return NULL;
-	return env_string(size);
+	return env_string();
 }
 
 static sparse_map_t *env_sparse(void)
@@ -114,12 +116,12 @@ int read_pax_header(sqfs_istream_t *fp, sqfs_u64 entsize,
 
 	bits = verif_nd_u32("pax.bits");
 	if (bits & PAX_NAME) {
-		out->name = env_string(3);
+		out->name = env_string();
 		if (out->name == NULL)
 			return -1;
 	}
 	if (bits & PAX_SLINK_TARGET) {
-		out->link_target = env_string(3);
+		out->link_target = env_string();
 		if (out->link_target == NULL)
 			return -1;
 	}
